@@ -413,3 +413,86 @@ def ev_ast(n, env):
 
 _BOOL_OPS = {"BoolV", "BoolS", "And", "Or", "Not", "ULT", "ULE", "UGT", "UGE", "SLT", "SLE", "SGT", "SGE", "__eq__", "__ne__",
              "__lt__", "__le__", "__gt__", "__ge__"}
+
+
+# ------------------------------------------------------------------------------------------------ directed shapes: the NAME dimension
+# An abstract value carries the name of the variable it came from and `==`/`!=` answer by name first.  These shapes put two
+# different derivations of the SAME variable on the two sides of a comparison (f(x) cmp x, f(x) cmp g(x), two joins
+# If(c1, x, y) cmp If(c2, x, y) with different conditions - a single If is excavated above the comparison).
+def derive(rng, vw, v, depth=1):
+    """a term of the width of variable v built from one operation on v (depth 1) or on such a term (depth 2)"""
+    w = vw[v]
+    base = ("var", v) if depth <= 1 else derive(rng, vw, v, depth - 1)
+    others = [i for i, x in enumerate(vw) if x == w and i != v]
+    def second():
+        r = rng.random()
+        if others and r < 0.35:
+            return ("var", rng.choice(others))
+        if r < 0.45:
+            return ("var", v)
+        return ("const", rng.choice([0, 1, 1, 2, w - 1, M(w), 1 << (w - 1), rng.randrange(1 << w)]) & M(w), w)
+    k = rng.random()
+    if k < 0.50:
+        op = rng.choice(BIN_OPS)
+        s = second()
+        return ("bin", op, base, s) if rng.random() < 0.7 else ("bin", op, s, base)
+    if k < 0.58:
+        return ("un", rng.choice(UN_OPS), base)
+    if k < 0.72 and w >= 2:
+        j = rng.randrange(1, w)
+        lo = rng.choice([0, j])
+        return (rng.choice(["zext", "sext"]), j, ("extract", lo + w - j - 1, lo, base))
+    if k < 0.80:
+        j = rng.randrange(1, 3)
+        lo = rng.randrange(0, j + 1)
+        return ("extract", lo + w - 1, lo, (rng.choice(["zext", "sext"]), j, base))
+    if k < 0.86 and w >= 2:
+        j = rng.randrange(1, w)
+        hi_, lo_ = ("extract", w - 1, j, base), ("extract", j - 1, 0, base)
+        return ("concat", hi_, lo_) if rng.random() < 0.5 else ("concat", lo_, hi_)
+    # a join: If over a condition that does not decide it
+    c = ("cmp", rng.choice(CMP_OPS), ("var", rng.choice(others + [v])), ("const", rng.randrange(1 << w), w))
+    s = second()
+    return ("if", c, base, s) if rng.random() < 0.5 else ("if", c, s, base)
+
+
+def gen_named(rng, vw, nested=None):
+    """a Boolean tree (or a bit-vector tree around one) comparing two derivations of the same variable"""
+    v = rng.randrange(len(vw))
+    w = vw[v]
+    k = rng.random()
+    if k < 0.35:
+        L, R = derive(rng, vw, v, rng.choice([1, 1, 2])), ("var", v)
+    elif k < 0.55:
+        L, R = derive(rng, vw, v, rng.choice([1, 1, 2])), derive(rng, vw, v, 1)
+    elif k < 0.85 and len(vw) >= 2:
+        # two joins of the same two variables under different conditions
+        others = [i for i, x in enumerate(vw) if x == w and i != v]
+        u = ("var", rng.choice(others)) if others else ("const", rng.randrange(1 << w), w)
+        def cond():
+            a = rng.choice([("var", v), u if u[0] == "var" else ("var", v)])
+            return ("cmp", rng.choice(CMP_OPS), a, ("const", rng.randrange(1 << w), w))
+        L = ("if", cond(), ("var", v), u)
+        R = ("if", cond(), ("var", v), u) if rng.random() < 0.7 else ("if", cond(), u, ("var", v))
+        if rng.random() < 0.2:
+            R = ("var", v) if rng.random() < 0.5 else u
+    else:
+        e = rng.randrange(1, 3)
+        d = derive(rng, vw, v, 1)
+        L, R = rng.choice([
+            ((rng.choice(["zext", "sext"]), e, d), (rng.choice(["zext", "sext"]), e, ("var", v))),
+            (("concat", d, ("var", v)), ("concat", ("var", v), ("var", v))),
+            (("extract", w - 1, w - 1, d), ("extract", w - 1, w - 1, ("var", v))),
+        ])
+    if rng.random() < 0.3:
+        L, R = R, L
+    op = rng.choice(CMP_OPS + ["eq", "ne", "eq", "ne"])
+    t = ("cmp", op, L, R)
+    r = rng.random()
+    if r < 0.75:
+        return t
+    if r < 0.83:
+        return ("not", t)
+    if r < 0.91:
+        return (rng.choice(["and", "or"]), t, gen_bool(rng, vw, 1))
+    return ("if", t, derive(rng, vw, v, 1), ("var", v))
